@@ -14,3 +14,41 @@ package reader
 //@   decreases 101 - depth
 //@   loop 0:
 //@     invariant len(result) == len(v)
+
+// GetObject re-enters itself through the parser (a stream whose /Length is an indirect reference is resolved with
+// ResolveReference -> GetObject).  The nesting of loads in progress is the recursion measure.
+//@ func (*Reader) GetObject results (obj, err)
+//@   property C02, C04
+//@   requires stmCacheOK(r)
+//@   callsite getUncompressedObject(n, e) requires n == objNum && r.loading[n] && len(r.loading) <= 32 && e == r.xrefTable.Entries[objNum]
+//@   callsite getCompressedObject(n, e) requires n == objNum && r.loading[n] && len(r.loading) <= 32 && e == r.xrefTable.Entries[objNum]
+//@   ensures load_in_progress_refused: !has(old(r.objCache), objNum) && has(old(r.loading), objNum) && old(r.loading)[objNum] ==> err
+//@   ensures nesting_limited: !has(old(r.objCache), objNum) && len(old(r.loading)) >= 32 ==> err
+//@   ensures cache_hit: has(old(r.objCache), objNum) ==> !err && obj == old(r.objCache)[objNum]
+//@   ensures never_existed_is_error: !has(old(r.objCache), objNum) && !has(old(r.xrefTable.Entries), objNum) ==> err
+//@   ensures free_entry_is_error: !has(old(r.objCache), objNum) && has(old(r.xrefTable.Entries), objNum) && !old(r.xrefTable.Entries)[objNum].InUse ==> err
+//@   ensures cached_under_its_own_number: !err ==> has(r.objCache, objNum) && r.objCache[objNum] == obj
+
+// C04: an object is only returned when the object parsed at the entry's location carries the number asked for;
+// a compressed entry is looked up in the stream entry.Offset at index entry.Generation.
+//@ func (*Reader) getUncompressedObject results (obj, err)
+//@   property C04
+//@   atreturn number_verified: indObj.Ref.Number == objNum
+
+// representation invariant of the object-stream cache: every cached stream was built by core.NewObjectStream
+//@ spec func stmCacheOK(r Reader) bool = forall k int :: {r.objStmCache[k]} has(r.objStmCache, k) ==> r.objStmCache[k].first >= 0 && r.objStmCache[k].n >= 0
+
+//@ func (*Reader) getCompressedObject results (obj, err)
+//@   property C04
+//@   requires stmCacheOK(r)
+//@   callsite getObjectStream(n) requires n == entry.Offset
+//@   callsite GetObjectByIndex(i) requires i == entry.Generation
+//@   atreturn number_verified: extractedObjNum == objNum
+
+//@ func (*Reader) getObjectStream results (objStm, err)
+//@   property C04
+//@   requires stmCacheOK(r)
+//@   ensures cache_hit: has(old(r.objStmCache), objStmNum) ==> !err && objStm == old(r.objStmCache)[objStmNum]
+//@   ensures not_nested: !has(old(r.objStmCache), objStmNum) && has(old(r.xrefTable.Entries), objStmNum) && old(r.xrefTable.Entries)[objStmNum].Type == core.XRefEntryCompressed ==> err
+//@   ensures unknown_stream_is_error: !has(old(r.objStmCache), objStmNum) && !has(old(r.xrefTable.Entries), objStmNum) ==> err
+//@   ensures well_formed: !err ==> objStm.first >= 0 && objStm.n >= 0
